@@ -93,6 +93,7 @@ class Interp:
         self.unknown = []       # constructs outside the fragment (reported as inconclusive by rules that need them)
         self.config = config or {}
         self.aliases = []
+        self.lpstore = {}      # id -> current value of a mutable LpAffineExpression object (PuLP's += is in place)
         ENUM_CLASSES.update(c for c in repo.classes if self._is_enum(c))
 
     def _is_enum(self, cname):
@@ -151,8 +152,17 @@ class Interp:
 
     def lookup(self, name, fr):
         if name in fr.env:
-            return fr.env[name]
+            return self.deref(fr.env[name])
         return S(name)
+
+    def deref(self, v):
+        if v[0] == 'lpref':
+            return self.lpstore[v[1]]
+        return v
+
+    @staticmethod
+    def is_lp_object(t):
+        return t[0] == 'call' and t[1] in (S('lpSum'), S('LpAffineExpression'))
 
     def load(self, t):
         return self.heap.get(t, t)
@@ -463,7 +473,20 @@ class Interp:
             self.emit(Eff('expr', fr.func, s, term=t))
             return
         if isinstance(s, ast.Assign):
+            if isinstance(s.value, ast.Name) and fr.env.get(s.value.id, ('x',))[0] == 'lpref' and len(s.targets) == 1 \
+                    and isinstance(s.targets[0], ast.Name) and not self.is_outer(s.targets[0].id, fr):
+                # plain name binding: the new name refers to the SAME mutable LP expression object
+                fr.env[s.targets[0].id] = fr.env[s.value.id]
+                fr.defdepth[s.targets[0].id] = fr.defdepth.get(s.value.id, fr.loopdepth)
+                self.emit(Eff('alias', fr.func, s, name=s.targets[0].id, of=s.value.id))
+                return
             v = self.ex(s.value, fr)
+            if self.is_lp_object(v) and len(s.targets) == 1 and isinstance(s.targets[0], ast.Name) and not self.is_outer(s.targets[0].id, fr):
+                rid = next(self.ids)
+                self.lpstore[rid] = v
+                fr.env[s.targets[0].id] = ('lpref', rid)
+                fr.defdepth[s.targets[0].id] = fr.loopdepth
+                return
             for tgt in s.targets:
                 self.assign(tgt, v, fr, s)
             return
@@ -593,6 +616,9 @@ class Interp:
                 fr.env[name] = ('prefix', name, cur[2], True)
             return
         cur = fr.env[name]
+        if cur[0] == 'lpref' and op in ('add', 'sub'):
+            self.lpstore[cur[1]] = simp(BIN('Add' if op == 'add' else 'Sub', self.lpstore[cur[1]], val))
+            return
         if op == 'add':
             fr.env[name] = simp(BIN('Add', cur, val))
         elif op == 'sub':
@@ -612,16 +638,24 @@ class Interp:
             return self.block(s.body, fr)
         if c == FALSE:
             return self.block(s.orelse, fr)
-        pre_env, pre_dd, pre_heap = dict(fr.env), dict(fr.defdepth), dict(self.heap)
+        pre_env, pre_dd, pre_heap, pre_lp = dict(fr.env), dict(fr.defdepth), dict(self.heap), dict(self.lpstore)
         fr.guards.append(c)
         b1 = self.sub(s.body, fr)
         fr.guards.pop()
-        e1, d1, h1, c1 = fr.env, fr.defdepth, self.heap, fr.ctrl
-        fr.env, fr.defdepth, self.heap, fr.ctrl = dict(pre_env), dict(pre_dd), dict(pre_heap), None
+        e1, d1, h1, c1, l1 = fr.env, fr.defdepth, self.heap, fr.ctrl, self.lpstore
+        fr.env, fr.defdepth, self.heap, fr.ctrl, self.lpstore = dict(pre_env), dict(pre_dd), dict(pre_heap), None, dict(pre_lp)
         fr.guards.append(NOT(c))
         b2 = self.sub(s.orelse, fr)
         fr.guards.pop()
-        e2, d2, h2, c2 = fr.env, fr.defdepth, self.heap, fr.ctrl
+        e2, d2, h2, c2, l2 = fr.env, fr.defdepth, self.heap, fr.ctrl, self.lpstore
+        lpm = {}
+        for k in set(l1) | set(l2):
+            a, b = l1.get(k), l2.get(k)
+            if a is None or b is None or (c1 and not c2) or (c2 and not c1):
+                lpm[k] = (b if (c1 and not c2) else a) if (a is not None and b is not None) else (a if a is not None else b)
+            else:
+                lpm[k] = a if a == b else simp(('ite', c, a, b))
+        self.lpstore = lpm
         # merge
         env, dd = {}, {}
         live1, live2 = c1 is None, c2 is None
@@ -691,7 +725,7 @@ class Interp:
         fr.ctrl = saved_ctrl
         fr.loops.pop()
         fr.loopdepth -= 1
-        e = Eff('for', fr.func, s, binder=b, body=body, lid=lid, pre={k: pre[k] for k in carried})
+        e = Eff('for', fr.func, s, binder=b, body=body, lid=lid, pre={k: self.deref(pre[k]) for k in carried})
         self.loopinfo[lid] = e
         self.finish_loop(e, pre, carried, b, fr)
         self.emit(e)
@@ -711,7 +745,11 @@ class Interp:
                     # still inside an outer loop relative to the variable's definition: re-emit as acc effects there
                     env[k] = ('carried', k, fr.loops[-1]) if fr.loops else pre[k]
                     continue
-                env[k] = fold_acc(pre[k], entries, k, lid)
+                if pre[k][0] == 'lpref':
+                    self.lpstore[pre[k][1]] = fold_acc(self.lpstore[pre[k][1]], entries, k, lid)
+                    env[k] = pre[k]
+                else:
+                    env[k] = fold_acc(pre[k], entries, k, lid)
         fr.env = env
 
     def unroll(self, s, dom, fr):
@@ -744,7 +782,7 @@ class Interp:
         fr.loops.pop()
         fr.loopdepth -= 1
         b = ('bvar', wid, 'while', ('while', wid))
-        e = Eff('while', fr.func, s, cond=cond, body=body, lid=wid, binder=b, pre={k: pre[k] for k in carried})
+        e = Eff('while', fr.func, s, cond=cond, body=body, lid=wid, binder=b, pre={k: self.deref(pre[k]) for k in carried})
         self.whiles[wid] = e
         self.loopinfo[wid] = e
         self.finish_loop(e, pre, carried, b, fr)
